@@ -1695,6 +1695,9 @@ def run(run):
             c["root"]["fmt"] = "hdf5"
             for f in c["files"]:
                 f.pop("dcor", None)
+                if NO_BASINMAP_FILE_ONLY and f["ridmode"] == "none":
+                    # (without identifier nothing is verified at retrieve)
+                    f["ridmode"] = "derived"
                 for b in f["basins"]:
                     # basins verified when the definitions are retrieved
                     # (for the unverified kinds see corpus seed 16 and fix
